@@ -20,11 +20,12 @@ TARGETS = ['PyTough.Props.C06', 'drv_c05']
 THEOREMS = ['Props.C06.' + t for t in ['scan_reads_selected_lines', 'history_table_eq_cells', 'reversed_key_negated',
                                     'history_leaves_reader_unchanged', 'history_preserves_view',
                                     'skip_to_nonblank_spins_iff', 'read_until_spins_iff', 'skipto_progresses']]
-LEVEL_TEXT = ('Proof: 5 Lean theorems about the model of t2listing.history(): the one-pass read of the selected rows of a table returns for every '
+LEVEL_TEXT = ('Proof: 8 Lean theorems about the model of t2listing.history(): the one-pass read of the selected rows of a table returns for every '
               'entry (any number, any order, repeated rows) exactly the cell that the row reader gives for that row line, with the same exception '
               'when a cell cannot be read (scan_reads_selected_lines, history_table_eq_cells); a reversed connection name yields the negated value; '
               'a history() call that returns leaves index, time, step and every table of the reader unchanged (history_leaves_reader_unchanged, '
-              'for the whole-file model, all simulators). No sorry. Termination is not proved: the model makes non-termination an explicit outcome '
+              'for the whole-file model, all simulators). No sorry. Termination is not proved: the model makes non-termination an explicit outcome, three lemmas '
+              'characterise exactly when its line loops spin (only at end of file), '
               '(a skip loop that spins at end of file is `diverges`) and every run compares it with the real call under a 20 s timeout; '
               'the stepping oracle compares every series value by value.')
 LEVEL_NOTE = ('Trusted: Lean kernel (+propext, Classical.choice, Quot.sound); the hand-written whole-file model (history() of the model vs the real call: same '
